@@ -92,7 +92,19 @@ func init() {
 					panicMsg = e.S
 				}
 			}
-			impl := fmt.Sprintf("ran=%v read=%s outAtStart=%d outTotal=%d writesAfter=%d closed=%v", res.HijackRan, H(res.HijackRead), outAtStart, len(res.Trace.Out), writesAfter, res.Trace.Closed)
+			// without KeepHijackedConns the server closes the connection once the hijack handler has returned (the close
+			// follows the handler's return on the same goroutine: give it a moment)
+			closed := false
+			for i := 0; i < 600; i++ {
+				res.Trace.mu.Lock()
+				closed = res.Trace.Closed
+				res.Trace.mu.Unlock()
+				if closed || cfg.KeepHijacked {
+					break
+				}
+				time.Sleep(5 * time.Millisecond)
+			}
+			impl := fmt.Sprintf("ran=%v read=%s outAtStart=%d outTotal=%d writesAfter=%d closed=%v", res.HijackRan, H(res.HijackRead), outAtStart, len(res.Trace.Out), writesAfter, closed)
 			// model tie: the hijack flags across the requests of this connection (Model/Hijack.lean hjRun)
 			var flagArgs [][]byte
 			for i := 0; i < pre; i++ {
@@ -128,6 +140,9 @@ func init() {
 					}
 					if writesAfter > 0 {
 						return Verdict{VSpec, "server-wrote-after-hijack", desc}
+					}
+					if !cfg.KeepHijacked && !closed {
+						return Verdict{VSpec, "hijacked-conn-not-closed", desc + ": the hijack handler returned 3 s ago, KeepHijackedConns is off, and the connection is still open"}
 					}
 					if len(replies) > 0 && replies[0] != "no-driver" {
 						// the model's verdict per request: "hs" (hijacked, response suppressed); the last one is the hijacking request
